@@ -18,7 +18,9 @@ FLT_MAX = 3.4028234663852886e38
 STR_PARTS = ["", "a", "abc", "é", "ß", "ю", "日本", "€", " ", "😀",
              "𝄞", "\x00", "<", ">", ",", "a<b>,c", " ", "\n", "\x7f",
              "\u0080", "߿", "ࠀ", "￿", "\U00010000",
-             "\U0010ffff", "mapping<string,UUID>"]
+             "\U0010ffff", "mapping<string,UUID>", "\ufeff", "\ufeffname",
+             "\ufffe", "\ufffd", "\r\n", "\r", "e\u0301", "\u200b", "\ud7ff",
+             "\ue000", "\x1a", "\\", "'", '"', "%s", "{}", "\x85", "\u2028"]
 
 
 class Pool:
